@@ -234,6 +234,10 @@ def run_one(case, slow=1.0):
             args += ["--bind", dec(o[5:])]
         elif o.startswith("q="):
             args += ["-q", dec(o[2:])]
+        elif o.startswith("tb="):
+            args += ["--tiebreak", dec(o[3:])]
+        elif o == "sort":
+            args.remove("--no-sort")
         elif o.startswith("d="):
             args += ["-d", dec(o[2:])]
         elif o.startswith("hist="):
